@@ -101,7 +101,7 @@ func runC10(c *Ctx) int {
 	if c.Replay != "" {
 		return replayExplorer(c, mon)
 	}
-	cases := explorerCases(c.Seed+70, c.Pick(4, 6), c.Pick(300, 12000), 30, c.Pick(120, 200))
+	cases := explorerCases(c.Seed+70, c.Pick(4, 6), c.Pick(300, 3000), 30, c.Pick(120, 200))
 	agg := c.runExplorer(cases, mon, c.Pick(60, 200), func(kind string) bool {
 		return strings.HasPrefix(kind, "reclaim:") || kind == "panic"
 	})
